@@ -440,6 +440,23 @@ def swallowed_errors(ctx):
     ctx.ob(['C10'], 'R-ERR', 'swallowed|census', selftest, 'places where a Result loses its Err: %d, all in the reviewed table (matchers self-tested on ok / unwrap_or / flat_map)' % n, nontrivial=False)
 
 
+def resolved_struct_fields(f, ed, tyname):
+    """a struct value built with the crate's constructors / builders / later field stores instead of one literal shows up with every
+    field as `<that local>.<field>` (or as the per-field local the loader split it into): each is read as the value the field ends
+    up with, where that can be said without a case split"""
+    ed = dict(ed)
+    for k_, v_ in list(ed.items()):
+        v0 = strip(v_)
+        fv = None
+        if v0[0] == 'field' and v0[2] == k_ and strip(v0[1])[0] == 'var' and f.local_ty(strip(v0[1])[1]).endswith(tyname):
+            fv = final_field_value(f, strip(v0[1]), k_)
+        elif v0[0] == 'var' and len(f.defs().get(v0[1], [])) >= 2 and str(f.names.get(v0[1], '')).endswith('.' + k_):
+            fv = final_field_value(f, v0, k_)
+        if fv is not None:
+            ed[k_] = fv
+    return ed
+
+
 # ------------------------------------------------------------------------------------------------
 def enum(ctx):
     P = ctx.prog
@@ -462,6 +479,7 @@ def enum(ctx):
     if not ed:
         ctx.fail_closed(['C08'], 'R-ANCHOR', 'EB|exit', 'no EnumDefinition literal', where)
         return
+    ed = resolved_struct_fields(f, ed, 'EnumDefinition')
     ty = strip(ed['type_'])
     # D3 (C02): size and alignment of the base type
     def pure_call(e, name):
@@ -1089,6 +1107,7 @@ def attribute_table(ctx):
                     if isinstance(x, tuple) and x[0] == 'agg' and x[1].endswith('EnumDefinition'):
                         ed = dict(x[2])
         if ed:
+            ed = resolved_struct_fields(f, ed, 'EnumDefinition')
             # the variant marker: only `default` marks the default variant
             check('enum-variant', ['C08'], f, {'default_index': var_of(ed.get('default_index', ('none',)))}, {'default': {'default_index'}})
             f0 = f
